@@ -289,7 +289,15 @@ pub fn gen_secret(r: &mut Rng) -> String {
 
 pub fn gen_access_key(r: &mut Rng) -> String {
     let n = 4 + r.usize_below(17);
-    format!("AKIA{}", r.string_from(ALNUM, n))
+    let k = format!("AKIA{}", r.string_from(ALNUM, n));
+    // key ids are opaque to the verifier: some issuers hand out base64-looking ones, padding and all ('=' is also the
+    // separator inside an Authorization parameter, '+' and '_' are nothing special anywhere)
+    match r.below(10) {
+        0 => format!("{}=", k),
+        1 => format!("{}==", k),
+        2 => format!("{}+{}_", k, r.string_from(ALNUM, 3)),
+        _ => k,
+    }
 }
 
 pub fn gen_token(r: &mut Rng) -> String {
